@@ -793,6 +793,8 @@ fn can_show_definition(ctx: &Context, name: &str) -> bool {
 fn expand_aliases(ctx: &Context, name: &str) -> (String, String) {
     let mut name = name.to_owned();
     let mut canon = ctx.canonicalize(&name).unwrap_or_else(|| name.clone());
+    // Definitions loaded one after another can make a cycle of aliases.
+    let mut steps = 0;
 
     while let Some(&Expr::Unit { name: ref unit }) = {
         ctx.registry
@@ -800,7 +802,8 @@ fn expand_aliases(ctx: &Context, name: &str) -> (String, String) {
             .get(&name)
             .or_else(|| ctx.registry.definitions.get(&*canon))
     } {
-        if ctx.registry.base_units.contains(&*name) {
+        steps += 1;
+        if steps > 64 || ctx.registry.base_units.contains(&*name) {
             break;
         }
         let unit_canon = ctx.canonicalize(unit).unwrap_or_else(|| unit.clone());
@@ -814,18 +817,23 @@ fn expand_aliases(ctx: &Context, name: &str) -> (String, String) {
                 if !ctx.registry.base_units.contains(&**unit) {
                     break;
                 } else {
-                    assert!(name != *unit || canon != unit_canon);
                     name = unit.clone();
                     canon = unit_canon;
                     break;
                 }
             } else {
-                assert!(name != unit_canon || canon != unit_canon);
+                if name == unit_canon && canon == unit_canon {
+                    // No progress: the aliases lead back here.
+                    break;
+                }
                 name = unit_canon.clone();
                 canon = unit_canon;
             }
         } else {
-            assert!(name != *unit || canon != unit_canon);
+            if name == *unit && canon == unit_canon {
+                // No progress: the aliases lead back here.
+                break;
+            }
             name = unit.clone();
             canon = unit_canon.clone();
         }
